@@ -163,3 +163,53 @@ fn __verif_n_c19_class_json_hash() {
         Some((input, why)) => println!("VERIF-N id=N/n_c19_class/json_hash_stable status=fail key=\"{}\" input=\"{}\" detail=\"{}: {}\" bound=\"{bound}\"", why.replace('"', "'"), input.replace('"', "'"), input.replace('"', "'"), why.replace('"', "'")),
     }
 }
+
+/// First conjunct of C19: "the CASM class compiled from the published contract class (the
+/// felt-serialized Sierra) equals the one compiled directly from the compiler's output". For every
+/// checked-in contract with both its printed Sierra program X.sierra (the compiler's output) and its
+/// published class X.contract_class.json:
+///   A = compile(directly: parse(X.sierra), canonically renamed, never serialized)
+///   B = compile(extract(ContractClass::new(that program)))      (serialized now, read back)
+///   C = compile(extract(X.contract_class.json))                  (the published felts)
+/// A == B == C.
+#[test]
+fn __verif_n_c19_class_published_equals_direct() {
+    use cairo_lang_sierra::ProgramParser;
+    use cairo_lang_sierra_generator::canonical_id_replacer::CanonicalReplacer;
+    use cairo_lang_sierra_generator::replace_ids::SierraIdReplacer;
+    use crate::contract_class::ExtractedSierraProgram;
+    std::panic::set_hook(Box::new(|_| {}));
+    let mut dir = std::path::PathBuf::from(env!("CARGO_MANIFEST_DIR"));
+    dir.pop();
+    dir.extend(["cairo-lang-starknet", "test_data"]);
+    let mut cases = 0u64;
+    let mut fail: Option<(String, String)> = None;
+    let cls = classes();
+    for (name, class) in &cls {
+        let stem = name.trim_end_matches(".contract_class.json");
+        let Ok(text) = std::fs::read_to_string(dir.join(format!("{stem}.sierra"))) else { continue };
+        let r = catch_unwind(AssertUnwindSafe(|| -> Option<String> {
+            let parsed = match ProgramParser::new().parse(&text) { Ok(p) => p, Err(_) => return Some("the printed Sierra program does not parse".into()) };
+            let direct = CanonicalReplacer::from_program(&parsed).apply(&parsed);
+            let published = class.extract_sierra_program(false).ok()?;
+            let (sv, cv) = (published.sierra_version, published.compiler_version);
+            let c = CasmContractClass::from_contract_class(class.clone(), published, false, usize::MAX).ok()?;
+            let a = match CasmContractClass::from_contract_class(class.clone(), ExtractedSierraProgram { program: direct.clone(), sierra_version: sv, compiler_version: cv }, false, usize::MAX) {
+                Ok(a) => a, Err(e) => return Some(format!("the compiler's own output does not compile directly: {e}")) };
+            if a != c { return Some("the class compiled from the published felts differs from the one compiled directly from the compiler's output".into()); }
+            let again = match ContractClass::new(&direct, class.entry_points_by_type.clone(), None, Default::default()) { Ok(k) => k, Err(e) => return Some(format!("the compiler's output cannot be published: {e}")) };
+            let back = match again.extract_sierra_program(false) { Ok(x) => x, Err(e) => return Some(format!("the freshly published class cannot be read back: {e}")) };
+            let b = match CasmContractClass::from_contract_class(again, back, false, usize::MAX) { Ok(b) => b, Err(e) => return Some(format!("the freshly published class does not compile: {e}")) };
+            if a != b { return Some("publishing the compiler's output (felt serialization) and reading it back changes the compiled class".into()); }
+            None
+        }));
+        cases += 1;
+        match r { Ok(None) => {}, Ok(Some(w)) => { fail = Some((stem.to_string(), w)); break; }, Err(_) => { fail = Some((stem.to_string(), "panic".into())); break; } }
+    }
+    let bound = format!("{cases} checked-in contracts with both the printed Sierra program and the published class");
+    match fail {
+        None if cases == 0 => println!("VERIF-N id=N/n_c19_class/published_equals_direct status=unknown"),
+        None => println!("VERIF-N id=N/n_c19_class/published_equals_direct status=ok cases={cases} distinct={cases} bound=\"{bound}\""),
+        Some((input, why)) => println!("VERIF-N id=N/n_c19_class/published_equals_direct status=fail key=\"{}\" input=\"{}\" detail=\"{}: {}\" bound=\"{bound}\"", why.replace('"', "'"), input.replace('"', "'"), input.replace('"', "'"), why.replace('"', "'")),
+    }
+}
